@@ -1,4 +1,126 @@
-(* C16 - placeholder while the proofs are being built; replaced below *)
-From Coq Require Import ZArith.
-Theorem placeholder_c16 : (1 + 1 = 2)%Z. Proof. reflexivity. Qed.
-Print Assumptions placeholder_c16.
+(* C16 - Whitelist proofs verify only for a real member of a non-empty key list.
+   Theorems about the executable model Model/Whitelist.v.  [whitelist_verify] is the function the
+   correspondence check runs against the C implementation; it is what the property demands.
+   [whitelist_verify_as_coded] is the transcription of secp256k1_whitelist_verify of the unchanged tree:
+   it is REFUTED for the empty ring by an explicit witness (finding F1, DESIGN.md section 6).
+   [MF] = stated under the explicit premise MathFacts P (group law of the curve, p and n prime) and
+   n < 2^256; all other theorems need no premise about the curve. *)
+From Coq Require Import ZArith List Bool.
+Require Import Spec.Params Spec.Curve Spec.Bytes Model.Base Model.Borromean Model.Whitelist Proofs.MathFacts Proofs.SurjectionProofs Proofs.WhitelistProofs.
+Import ListNotations.
+Local Open Scope Z_scope.
+
+(* never for an empty key list: neither for a signature object over 0 keys nor for a key count 0 *)
+Theorem verify_rejects_empty : forall P sig online offline n_keys W,
+  ws_n sig = 0 \/ n_keys = 0 -> whitelist_verify P sig online offline n_keys W = false.
+Proof. exact verify_rejects_empty_lemma. Qed.
+Print Assumptions verify_rejects_empty.
+
+(* F1: the function as coded on the unchanged tree DOES accept an empty key list - the 33-byte string
+   00 || SHA256(SHA256(ser33(G))) parses and verifies against no keys for W = G (real secp256k1) *)
+Theorem whitelist_verify_as_coded_accepts_empty_ring :
+  exists sig W, whitelist_verify_as_coded secp256k1 sig [] [] 0 W = true.
+Proof. exact as_coded_accepts_empty_ring_lemma. Qed.
+Print Assumptions whitelist_verify_as_coded_accepts_empty_ring.
+
+Theorem whitelist_verify_as_coded_empty_ring_witness :
+  whitelist_verify_as_coded secp256k1 f1_sig [] [] 0 f1_W = true /\
+  wl_parse (0 :: ws_data f1_sig) = Some f1_sig /\ length (0 :: ws_data f1_sig) = 33%nat.
+Proof. exact as_coded_accepts_empty_ring_witness. Qed.
+Print Assumptions whitelist_verify_as_coded_empty_ring_witness.
+
+(* the repair changes nothing else: on non-empty rings both functions agree *)
+Theorem verify_eq_as_coded_on_nonempty : forall P sig online offline n_keys W,
+  ws_n sig <> 0 -> whitelist_verify P sig online offline n_keys W = whitelist_verify_as_coded P sig online offline n_keys W.
+Proof. exact verify_eq_as_coded_nonempty_lemma. Qed.
+Print Assumptions verify_eq_as_coded_on_nonempty.
+
+Theorem verify_rejects_count_mismatch : forall P sig online offline n_keys W,
+  ws_n sig <> n_keys -> whitelist_verify P sig online offline n_keys W = false.
+Proof. exact (fun P => verify_rejects_count_mismatch_lemma P true). Qed.
+Print Assumptions verify_rejects_count_mismatch.
+
+Theorem verify_rejects_more_than_255_keys : forall P sig online offline n_keys W,
+  255 < ws_n sig -> whitelist_verify P sig online offline n_keys W = false.
+Proof. exact (fun P => verify_rejects_too_many_keys_lemma P true). Qed.
+Print Assumptions verify_rejects_more_than_255_keys.
+
+(* a stored ring scalar that is zero or >= n (this covers every re-encoding s + n) is rejected *)
+Theorem verify_rejects_zero_or_big_scalar : forall P sig online offline n_keys W i,
+  (i < Z.to_nat (ws_n sig))%nat ->
+  be_val (sig_scalar_bytes sig i) = 0 \/ cn P <= be_val (sig_scalar_bytes sig i) ->
+  whitelist_verify P sig online offline n_keys W = false.
+Proof. exact (fun P => verify_rejects_zero_or_big_scalar_lemma P true). Qed.
+Print Assumptions verify_rejects_zero_or_big_scalar.
+
+(* verification returns 1 EXACTLY when 1 <= n_keys <= 255, counts agree, every stored scalar is in
+   (0, n), and the Borromean ring signature over the keys online_i + H(offline_i + W)(offline_i + W) holds *)
+Theorem verify_exact : forall P sig online offline n_keys W,
+  0 < cn P -> 0 <= ws_n sig -> (forall i, 0 <= be_val (sig_scalar_bytes sig i)) ->
+  (whitelist_verify P sig online offline n_keys W = true <->
+   (1 <= ws_n sig <= 255 /\ ws_n sig = n_keys /\
+    (forall i, (i < Z.to_nat (ws_n sig))%nat -> 0 < be_val (sig_scalar_bytes sig i) < cn P) /\
+    borromean_verify P (firstn 32 (ws_data sig)) (map be_val (wl_chunks (ws_data sig) (Z.to_nat (ws_n sig))))
+      (compute_keys P online offline (Z.to_nat (ws_n sig)) W) [Z.to_nat (ws_n sig)] 1
+      (compute_message online offline (Z.to_nat (ws_n sig)) W) = true)).
+Proof. exact verify_iff_lemma. Qed.
+Print Assumptions verify_exact.
+
+(* signing refuses a zero or out-of-range online / summed secret key: no signature, return value 0 *)
+Theorem sign_rejects_bad_secret : forall P online offline nk W online_key summed_key index,
+  (be_val online_key = 0 \/ cn P <= be_val online_key \/ be_val summed_key = 0 \/ cn P <= be_val summed_key) ->
+  whitelist_sign_core P online offline nk W online_key summed_key index = WSignFail.
+Proof. exact sign_rejects_bad_secret_lemma. Qed.
+Print Assumptions sign_rejects_bad_secret.
+
+Theorem api_sign_rejects_bad_secret : forall P online offline n_keys W online_key summed_key index,
+  (be_val online_key = 0 \/ cn P <= be_val online_key \/ be_val summed_key = 0 \/ cn P <= be_val summed_key) ->
+  exists rest, whitelist_sign P online offline n_keys W online_key summed_key index = AInt 0 :: rest.
+Proof. exact api_sign_rejects_bad_secret_lemma. Qed.
+Print Assumptions api_sign_rejects_bad_secret.
+
+(* the serialized form is accepted only with at most 255 keys and its exact length 1 + 32*(n_keys + 1) *)
+Theorem parse_exact : forall input : bytes,
+  (exists s, wl_parse input = Some s) <->
+  (input <> [] /\ nth 0 input 0 <= 255 /\ Z.of_nat (length input) = 1 + 32 * (nth 0 input 0 + 1)).
+Proof. exact wl_parse_some_iff. Qed.
+Print Assumptions parse_exact.
+
+Theorem serialize_parse : forall input s, 0 <= nth 0 input 0 -> wl_parse input = Some s ->
+  wl_serialize_bytes s = input /\ wsig_len (ws_n s) = Z.of_nat (length input).
+Proof. exact wl_serialize_parse_lemma. Qed.
+Print Assumptions serialize_parse.
+
+Theorem parse_serialize : forall s, 0 <= ws_n s <= 255 ->
+  (Z.to_nat (32 * (ws_n s + 1)) <= length (ws_data s))%nat ->
+  wl_parse (wl_serialize_bytes s) = Some (mkWsig (ws_n s) (firstn (Z.to_nat (32 * (ws_n s + 1))) (ws_data s))).
+Proof. exact wl_parse_serialize_lemma. Qed.
+Print Assumptions parse_serialize.
+
+(* [MF] sign => verify: for every key count 1..255 and every signer index, if signing succeeds with a secret
+   matching the ring key at [index] and no ring key is the point at infinity, the signature verifies against
+   exactly that key list and whitelisted key *)
+Theorem sign_verifies : forall P, MathFacts P -> cn P < 2 ^ 256 ->
+  forall online offline nk W online_key summed_key index sig sec,
+  (1 <= nk <= 255)%nat -> (index < nk)%nat ->
+  compute_tweaked_privkey P online_key summed_key = Some sec ->
+  nth index (compute_keys P online offline nk W) None = Curve.pmul P sec (Curve.G P) ->
+  forallb ninf (compute_keys P online offline nk W) = true ->
+  whitelist_sign_core P online offline nk W online_key summed_key index = WSignOk sig ->
+  whitelist_verify P sig online offline (Z.of_nat nk) W = true.
+Proof. exact sign_verifies_lemma. Qed.
+Print Assumptions sign_verifies.
+
+(* [MF] the same in the property's own terms: the online secret is the discrete log of online_index, the
+   summed secret that of offline_index + W *)
+Theorem sign_verifies_honest : forall P, MathFacts P -> cn P < 2 ^ 256 ->
+  forall online offline nk W online_key summed_key index sig,
+  (1 <= nk <= 255)%nat -> (index < nk)%nat ->
+  0 < be_val online_key < cn P -> 0 < be_val summed_key < cn P ->
+  pk_pt (key_obj online index) = Curve.pmul P (be_val online_key) (Curve.G P) ->
+  Curve.padd P (pk_pt (key_obj offline index)) (pk_pt W) = Curve.pmul P (be_val summed_key) (Curve.G P) ->
+  forallb ninf (compute_keys P online offline nk W) = true ->
+  whitelist_sign_core P online offline nk W online_key summed_key index = WSignOk sig ->
+  whitelist_verify P sig online offline (Z.of_nat nk) W = true.
+Proof. exact sign_verifies_honest_lemma. Qed.
+Print Assumptions sign_verifies_honest.
